@@ -4,7 +4,15 @@
 
    Model/Hosts.v models the code as repaired by pending_fixes/F13_F19.diff
    (client.onhostlist) and pending_fixes/F24_F25.diff (hostwatch); the
-   `_asfound` definitions and `_refuted` theorems record the defects. *)
+   `_asfound` definitions and `_refuted` theorems record the defects.
+
+   The helper's reader (firewall._read_next_string_line) is modelled with its limit
+   as a parameter: every helper / pipeline / end-to-end statement below passes
+   Gen.Consts.fw_readline_limit, regenerated from firewall.py on every run.  Today
+   that is None (readline() without a limit, F5 repaired) and the statements hold for
+   HOST lines of EVERY length.  Their proofs need `fw_readline_limit = None` (by
+   eq_refl): if the source gets a read limit again they stop checking, and only the
+   `_any_limit` / `_asfound_partial` statements (with the length hypothesis) remain. *)
 From Coq Require Import List NArith Ascii Bool.
 From SV Require Import Lib.Bytes Model.Hosts Proofs.Hosts_lemmas Gen.Consts.
 Import ListNotations.
@@ -76,17 +84,112 @@ Print Assumptions c19_relay_mux_limit_refuted.
 (* (2) Every line that reaches the hosts file has the form addr name marker *)
 
 (* For ALL sequences of HOST_LIST payloads (arbitrary bytes — a superset of what any
-   scanner can produce): if every HOST line the client writes fits one readline(128)
-   of the helper (F5 / C13 otherwise), the helper accepts all of them and every line
-   it puts into the hosts file is `pad30(addr ' ' name) ' ' marker` with addr a
+   scanner can produce) and HOST lines of EVERY length: the helper (reading with the
+   limit found in the source: none) accepts all the lines the client writes and every
+   line it puts into the hosts file is `pad30(addr ' ' name) ' ' marker` with addr a
    dotted quad (4 fields of 1..3 digits, each <= 255) and name in [-A-Za-z0-9_.]+ . *)
 Theorem c19_line_form : forall marker payloads,
   let ls := fst (client_run onhostlist payloads) in
-  Forall (fun l => lenN l <= READLINE_LIMIT) ls ->
-  snd (helper_run [] ls) = None /\
-  Forall (wf_line marker) (hosts_lines marker (fst (helper_run [] ls))).
-Proof. intros marker payloads ls Hl. exact (proj2 (pipeline_line_form marker payloads Hl)). Qed.
+  snd (helper_run fw_readline_limit [] ls) = None /\
+  Forall (wf_line marker) (hosts_lines marker (fst (helper_run fw_readline_limit [] ls))).
+Proof.
+  intros marker payloads ls.
+  exact (proj2 (pipeline_line_form fw_readline_limit marker payloads
+                  (line_fits_whole fw_readline_limit eq_refl _))).
+Qed.
 Print Assumptions c19_line_form.
+
+(* the same for ANY reader limit, provided every HOST line fits one read
+   (line_fits None l = True, line_fits (Some n) l = lenN l <= n) *)
+Theorem c19_line_form_any_limit : forall lim marker payloads,
+  let ls := fst (client_run onhostlist payloads) in
+  Forall (line_fits lim) ls ->
+  snd (helper_run lim [] ls) = None /\
+  Forall (wf_line marker) (hosts_lines marker (fst (helper_run lim [] ls))).
+Proof. intros lim marker payloads ls Hl. exact (proj2 (pipeline_line_form lim marker payloads Hl)). Qed.
+Print Assumptions c19_line_form_any_limit.
+
+(* the helper as found read with readline(128): the statement needs the hypothesis
+   that every HOST line is at most 128 bytes (F5 otherwise, see (2r) below) *)
+Theorem c19_line_form_asfound_partial : forall marker payloads,
+  let ls := fst (client_run onhostlist payloads) in
+  Forall (fun l => lenN l <= READLINE_LIMIT_ASFOUND) ls ->
+  snd (helper_run (Some READLINE_LIMIT_ASFOUND) [] ls) = None /\
+  Forall (wf_line marker) (hosts_lines marker (fst (helper_run (Some READLINE_LIMIT_ASFOUND) [] ls))).
+Proof.
+  intros marker payloads ls Hl.
+  exact (proj2 (pipeline_line_form (Some READLINE_LIMIT_ASFOUND) marker payloads Hl)).
+Qed.
+Print Assumptions c19_line_form_asfound_partial.
+
+(* Exactly-once delivery into the helper's host map.  For ALL lists of well-formed
+   records (names and addresses of EVERY length) and every starting map: fed the HOST
+   lines of the records, the helper ends with the map in which each record was set
+   once, in order (`delivered` = fold of hm_set), and is still waiting for input. *)
+Theorem c19_helper_delivers : forall recs hm, Forall valid_rec recs ->
+  helper_run fw_readline_limit hm (map rec_line recs) = (delivered hm recs, None).
+Proof.
+  intros recs hm Hv.
+  exact (helper_run_delivers fw_readline_limit recs hm Hv (line_fits_whole fw_readline_limit eq_refl _)).
+Qed.
+Print Assumptions c19_helper_delivers.
+
+(* ... and the lines the client writes for ANY payload sequence are the lines of
+   well-formed records, each delivered exactly once *)
+Theorem c19_pipeline_delivers : forall payloads,
+  let ls := fst (client_run onhostlist payloads) in
+  exists recs, Forall valid_rec recs /\ ls = map rec_line recs /\
+    helper_run fw_readline_limit [] ls = (delivered [] recs, None).
+Proof.
+  intros payloads ls.
+  exact (pipeline_delivers fw_readline_limit payloads (line_fits_whole fw_readline_limit eq_refl _)).
+Qed.
+Print Assumptions c19_pipeline_delivers.
+
+Theorem c19_helper_delivers_any_limit : forall lim recs hm, Forall valid_rec recs ->
+  Forall (line_fits lim) (map rec_line recs) ->
+  helper_run lim hm (map rec_line recs) = (delivered hm recs, None).
+Proof. intros lim recs hm Hv Hl. exact (helper_run_delivers lim recs hm Hv Hl). Qed.
+Print Assumptions c19_helper_delivers_any_limit.
+
+Theorem c19_helper_delivers_asfound_partial : forall recs hm, Forall valid_rec recs ->
+  Forall (fun l => lenN l <= READLINE_LIMIT_ASFOUND) (map rec_line recs) ->
+  helper_run (Some READLINE_LIMIT_ASFOUND) hm (map rec_line recs) = (delivered hm recs, None).
+Proof. intros recs hm Hv Hl. exact (helper_run_delivers (Some READLINE_LIMIT_ASFOUND) recs hm Hv Hl). Qed.
+Print Assumptions c19_helper_delivers_asfound_partial.
+
+(* (2r) F5: with readline(128) the delivery statement is false without the length
+   hypothesis.  Witness: the 129-byte line `HOST a{107},192.168.100.200\n` is read as
+   128 bytes + "\n"; the blank second piece makes the helper return (firewall undone). *)
+Definition f5_name : bytes := repeat "a"%char 107.
+Definition f5_ip : bytes := ["1"; "9"; "2"; "."; "1"; "6"; "8"; "."; "1"; "0"; "0"; "."; "2"; "0"; "0"]%char.
+
+Theorem c19_helper_delivers_asfound_refuted :
+  ~ (forall recs hm, Forall valid_rec recs ->
+       helper_run (Some READLINE_LIMIT_ASFOUND) hm (map rec_line recs) = (delivered hm recs, None)).
+Proof.
+  intros H. specialize (H [(f5_name, f5_ip)] []).
+  assert (Hv : Forall valid_rec [(f5_name, f5_ip)]) by (repeat constructor).
+  assert (Hlen : lenN (rec_line (f5_name, f5_ip)) = 129) by (vm_compute; reflexivity).
+  assert (Hrun : helper_run (Some READLINE_LIMIT_ASFOUND) [] (map rec_line [(f5_name, f5_ip)])
+                 = ([(f5_name, f5_ip)], Some HReturn)) by (vm_compute; reflexivity).
+  specialize (H Hv). rewrite Hrun in H. discriminate H.
+Qed.
+Print Assumptions c19_helper_delivers_asfound_refuted.
+
+(* the same defect three bytes later, as probed on the real helper (DESIGN §6 F5): the
+   132-byte line `HOST a{110},192.168.100.200\n` sets the TRUNCATED address 192.168.100.
+   and then fails with Fatal('expected command, got 200') *)
+Theorem c19_line_form_reader_asfound_refuted : exists n i,
+  valid_name n = true /\ valid_ip i = true /\ lenN (host_line n i) = 132 /\
+  exists i', helper_run (Some READLINE_LIMIT_ASFOUND) [] [host_line n i] = ([(n, i')], Some HFatal) /\
+    valid_ip i' = false.
+Proof.
+  exists (repeat "a"%char 110), f5_ip. split; [vm_compute; reflexivity|].
+  split; [vm_compute; reflexivity|]. split; [vm_compute; reflexivity|].
+  eexists. split; vm_compute; reflexivity.
+Qed.
+Print Assumptions c19_line_form_reader_asfound_refuted.
 
 (* ... and such a line is one line whose whitespace-separated fields are exactly
    the address, the name and then the marker's words: nothing injected. *)
@@ -113,30 +216,48 @@ Print Assumptions c19_valid_meaning.
 (* the client as found let empty names and non-addresses through: F19 *)
 Theorem c19_line_form_asfound_refuted : exists payload n i,
   let '(ls, o) := client_run onhostlist_asfound [payload] in
-  o = COk /\ Forall (fun l => lenN l <= READLINE_LIMIT) ls /\
-  helper_run [] ls = ([(n, i)], None) /\ valid_name n = false /\ valid_ip i = false.
+  o = COk /\
+  helper_run fw_readline_limit [] ls = ([(n, i)], None) /\ valid_name n = false /\ valid_ip i = false.
 Proof.
   exists [","; "1"; "."; "."; "2"; NL]%char, [], ["1"; "."; "."; "2"]%char.
-  vm_compute. repeat split. repeat constructor; discriminate.
+  vm_compute. repeat split.
 Qed.
 Print Assumptions c19_line_form_asfound_refuted.
 
 (* ------------------------------------------------------------------ *)
 (* (3) No name or address ends the session                              *)
 
-(* For ALL payload sequences (arbitrary bytes as names and addresses) the repaired
-   client never raises (the two asserts of sethostip are unreachable, a record
-   without ',' is skipped), and — when its HOST lines fit the helper's reader —
-   the helper neither raises, nor reports Fatal, nor returns. *)
+(* For ALL payload sequences (arbitrary bytes as names and addresses, EVERY length)
+   the repaired client never raises (the two asserts of sethostip are unreachable, a
+   record without ',' is skipped), and the helper neither raises, nor reports Fatal,
+   nor returns. *)
 Theorem c19_no_session_end : forall payloads,
   snd (client_run onhostlist payloads) = COk /\
-  (Forall (fun l => lenN l <= READLINE_LIMIT) (fst (client_run onhostlist payloads)) ->
-   snd (helper_run [] (fst (client_run onhostlist payloads))) = None).
+  snd (helper_run fw_readline_limit [] (fst (client_run onhostlist payloads))) = None.
 Proof.
   intros payloads. split; [apply client_run_ok|].
-  intros Hl. exact (proj1 (proj2 (pipeline_line_form [] payloads Hl))).
+  exact (proj1 (proj2 (pipeline_line_form fw_readline_limit [] payloads
+                         (line_fits_whole fw_readline_limit eq_refl _)))).
 Qed.
 Print Assumptions c19_no_session_end.
+
+(* the helper as found (readline(128)): only when the HOST lines fit the reader *)
+Theorem c19_no_session_end_asfound_partial : forall payloads,
+  snd (client_run onhostlist payloads) = COk /\
+  (Forall (fun l => lenN l <= READLINE_LIMIT_ASFOUND) (fst (client_run onhostlist payloads)) ->
+   snd (helper_run (Some READLINE_LIMIT_ASFOUND) [] (fst (client_run onhostlist payloads))) = None).
+Proof.
+  intros payloads. split; [apply client_run_ok|].
+  intros Hl. exact (proj1 (proj2 (pipeline_line_form (Some READLINE_LIMIT_ASFOUND) [] payloads Hl))).
+Qed.
+Print Assumptions c19_no_session_end_asfound_partial.
+
+(* ... and not otherwise (F5): one well-formed record with a 107-character name ends it *)
+Theorem c19_no_session_end_reader_asfound_refuted : exists payload,
+  snd (client_run onhostlist [payload]) = COk /\
+  snd (helper_run (Some READLINE_LIMIT_ASFOUND) [] (fst (client_run onhostlist [payload]))) = Some HReturn.
+Proof. exists (f5_name ++ COMMA :: f5_ip ++ [NL]). vm_compute. split; reflexivity. Qed.
+Print Assumptions c19_no_session_end_reader_asfound_refuted.
 
 (* skipped or delivered: the HOST lines written for a payload are exactly those of
    its well-formed records, in order; every other token is dropped *)
@@ -206,6 +327,9 @@ Print Assumptions c19_cache_total.
 (* ------------------------------------------------------------------ *)
 (* (5) End to end: scanner -> UTF-8 -> any cutting -> server -> client -> helper *)
 
+(* For ALL scanner call sequences, tables, cuttings and names of EVERY length (as long
+   as the server runs, see (1)): the records relayed are exactly the scanner's, the
+   client survives, the helper keeps running and every hosts line is well formed. *)
 Theorem c19_end_to_end : forall T calls st out chunks ps lo marker,
   found_hosts T [] calls = FhOk st out ->
   concat chunks = utf8 (out_text out) ->
@@ -213,17 +337,35 @@ Theorem c19_end_to_end : forall T calls st out chunks ps lo marker,
   let ls := fst (client_run onhostlist ps) in
   concat (map records ps) = records (utf8 (out_text out)) /\
   snd (client_run onhostlist ps) = COk /\
-  (Forall (fun l => lenN l <= READLINE_LIMIT) ls ->
-   snd (helper_run [] ls) = None /\
-   Forall (wf_line marker) (hosts_lines marker (fst (helper_run [] ls)))).
+  snd (helper_run fw_readline_limit [] ls) = None /\
+  Forall (wf_line marker) (hosts_lines marker (fst (helper_run fw_readline_limit [] ls))).
 Proof.
   intros T calls st out chunks ps lo marker _ Hc Hr ls.
   pose proof (c19_relay_exactly_once chunks) as H. rewrite Hr in H.
   destruct (H eq_refl) as (_ & _ & _ & _ & H5). rewrite Hc in H5.
   split; [exact H5|]. split; [apply client_run_ok|].
-  intros Hl. exact (proj2 (pipeline_line_form marker ps Hl)).
+  exact (c19_line_form marker ps).
 Qed.
 Print Assumptions c19_end_to_end.
+
+Theorem c19_end_to_end_asfound_partial : forall T calls st out chunks ps lo marker,
+  found_hosts T [] calls = FhOk st out ->
+  concat chunks = utf8 (out_text out) ->
+  hw_run [] chunks = (ps, lo, RunOk) ->
+  let ls := fst (client_run onhostlist ps) in
+  concat (map records ps) = records (utf8 (out_text out)) /\
+  snd (client_run onhostlist ps) = COk /\
+  (Forall (fun l => lenN l <= READLINE_LIMIT_ASFOUND) ls ->
+   snd (helper_run (Some READLINE_LIMIT_ASFOUND) [] ls) = None /\
+   Forall (wf_line marker) (hosts_lines marker (fst (helper_run (Some READLINE_LIMIT_ASFOUND) [] ls)))).
+Proof.
+  intros T calls st out chunks ps lo marker _ Hc Hr ls.
+  pose proof (c19_relay_exactly_once chunks) as H. rewrite Hr in H.
+  destruct (H eq_refl) as (_ & _ & _ & _ & H5). rewrite Hc in H5.
+  split; [exact H5|]. split; [apply client_run_ok|].
+  intros Hl. exact (c19_line_form_asfound_partial marker ps Hl).
+Qed.
+Print Assumptions c19_end_to_end_asfound_partial.
 
 (* as found, the raw name printed by found_host reaches the client's assert: F13 *)
 Theorem c19_end_to_end_asfound_refuted : exists name ip,
@@ -241,15 +383,15 @@ Qed.
 Print Assumptions c19_end_to_end_asfound_refuted.
 
 (* literals shared with /repo (regenerated on every run) *)
+(* the reader limit used in every statement above IS the one in firewall.main, and it
+   is "no limit"; should the source read with a limit again this (and the proofs of the
+   unconditional theorems) no longer check *)
 Theorem c19_consts :
-  match Consts.fw_readline_limit with
-  | Some n => READLINE_LIMIT = n        (* readline(128) in firewall.main *)
-  | None => True                        (* the helper reads whole lines (F5 repaired): the length hypothesis is then not needed *)
-  end /\
+  Consts.fw_readline_limit = None /\
   ~ In NL Consts.hosts_marker_pre /\ ~ In NL Consts.hosts_marker_post /\
   MUX_MAX = 65535 /\ LINE_MAX + 1 + 4096 = MUX_MAX + 1.
 Proof.
-  split; [vm_compute; first [reflexivity|exact I]|]. split; [|split; [|split; reflexivity]].
+  split; [reflexivity|]. split; [|split; [|split; reflexivity]].
   - apply (forallb_not_in (fun c => negb (Ascii.eqb c NL))); reflexivity.
   - apply (forallb_not_in (fun c => negb (Ascii.eqb c NL))); reflexivity.
 Qed.
@@ -269,9 +411,28 @@ Example c19_ex_pipeline :
                   "b"; "a"; "d"; "!"; ","; "1"; "."; "2"; "."; "3"; "."; "4"; NL;
                   ","; "1"; "."; "."; "2"; NL; "n"; "o"; "c"; "o"; "m"; "m"; "a"; NL]%char in
   let ls := fst (client_run onhostlist [payload]) in
-  Forall (fun l => lenN l <= READLINE_LIMIT) ls /\
-  helper_run [] ls = ([(["h"; "-"; "1"; "."; "x"]%char, ["1"; "0"; "."; "0"; "."; "0"; "."; "2"; "5"; "5"]%char)], None).
-Proof. vm_compute. split; [repeat constructor; discriminate|reflexivity]. Qed.
+  helper_run fw_readline_limit [] ls = ([(["h"; "-"; "1"; "."; "x"]%char, ["1"; "0"; "."; "0"; "."; "0"; "."; "2"; "5"; "5"]%char)], None).
+Proof. vm_compute. reflexivity. Qed.
+
+(* a 1000-character name (HOST line of 1018 bytes) goes through the pipeline whole,
+   followed by a second record *)
+Example c19_ex_long_name :
+  let nm := repeat "x"%char 1000 in
+  let payload := nm ++ [","; "1"; "0"; "."; "1"; "1"; "."; "1"; "2"; "."; "1"; "3"; NL;
+                        "z"; ","; "9"; "."; "9"; "."; "9"; "."; "9"; NL]%char in
+  let ls := fst (client_run onhostlist [payload]) in
+  map lenN ls = [1018; 15] /\
+  helper_run fw_readline_limit [] ls =
+    ([(nm, ["1"; "0"; "."; "1"; "1"; "."; "1"; "2"; "."; "1"; "3"]%char);
+      (["z"]%char, ["9"; "."; "9"; "."; "9"; "."; "9"]%char)], None).
+Proof. vm_compute. split; reflexivity. Qed.
+
+(* the as-found hypothesis is satisfiable at its edge: a 128-byte HOST line *)
+Example c19_ex_asfound_edge :
+  let r := (repeat "a"%char 106, f5_ip) in
+  lenN (rec_line r) = READLINE_LIMIT_ASFOUND /\
+  helper_run (Some READLINE_LIMIT_ASFOUND) [] [rec_line r] = ([r], None).
+Proof. vm_compute. split; reflexivity. Qed.
 
 Example c19_ex_bound_tight :
   (* a 61439-byte line followed by a full 4096-byte read ending in a newline: 65535, accepted *)
